@@ -470,6 +470,59 @@ Fixpoint idents_ok (e : expr) : bool :=
   | EBin _ a b => idents_ok a && idents_ok b
   end.
 
+(* ------------------------------------------------------------------ the minimal-parenthesis printer *)
+(* Precedence level of a tree's outermost form: 0 = expr (+ -), 1 = term (mul, div, floordiv), 2 = unary (-x, negative
+   literal), 3 = power, 4 = primary (names, numbers, calls).  floor(a / b) is written a // b. *)
+Definition lvl_of (e : expr) : nat :=
+  match e with
+  | ESym _ => 4
+  | EInt z => if (z <? 0)%Z then 2 else 4
+  | ENeg _ => 2
+  | EUn FFloor (EBin BDiv _ _) => 1
+  | EUn _ _ => 4
+  | EBin o _ _ => match o with BAdd | BSub => 0 | BMul | BDiv => 1 | BPow => 3 | BMod | BMax | BMin => 4 end
+  end%nat.
+
+(* pm l e : tokens of e in a context that needs level >= l; parentheses only where the grammar needs them:
+   left operands at the operator's own level (left associativity), right operands one level up, the base of **
+   at primary level and its exponent at unary level (right associativity, signed exponents). *)
+Fixpoint pm (l : nat) (e : expr) {struct e} : list token :=
+  let body :=
+    match e with
+    | ESym x => [TId x]
+    | EInt z => if (z <? 0)%Z then [TOp OMinus; TNum (Z.to_N (- z))] else [TNum (Z.to_N z)]
+    | ENeg a => TOp OMinus :: pm 2 a
+    | EUn FFloor (EBin BDiv a b) => pm 1 a ++ TOp ODSlash :: pm 2 b
+    | EUn f a => TId (fn1_name f) :: TLP :: pm 0 a ++ [TRP]
+    | EBin o a b =>
+        match o with
+        | BAdd => pm 0 a ++ TOp OPlus :: pm 1 b
+        | BSub => pm 0 a ++ TOp OMinus :: pm 1 b
+        | BMul => pm 1 a ++ TOp OStar :: pm 2 b
+        | BDiv => pm 1 a ++ TOp OSlash :: pm 2 b
+        | BPow => pm 4 a ++ TOp OPow :: pm 2 b
+        | BMod | BMax | BMin => TId (call_name o) :: TLP :: pm 0 a ++ TComma :: pm 0 b ++ [TRP]
+        end
+    end in
+  if (lvl_of e <? l)%nat then TLP :: body ++ [TRP] else body.
+
+Definition prmin (e : expr) : list N := render (pm 0 e).
+
+Fixpoint nonneg_lits (e : expr) : bool :=
+  match e with
+  | ESym _ => true
+  | EInt z => (0 <=? z)%Z
+  | ENeg a | EUn _ a => nonneg_lits a
+  | EBin _ a b => nonneg_lits a && nonneg_lits b
+  end.
+
+Fixpoint esize (e : expr) : nat :=
+  match e with
+  | ESym _ | EInt _ => 1
+  | ENeg a | EUn _ a => S (esize a)
+  | EBin _ a b => S (esize a + esize b)
+  end.
+
 (* ------------------------------------------------------------------ helpers for the case files *)
 Definition oexpr_eqb := option_eqb expr_eqb.
 Definition oq_eqb (a b : option Q) : bool := option_eqb Qeq_bool a b.
